@@ -29,3 +29,5 @@ git -C /repo checkout -- .
 git -C /repo status --short | head -3
 # rebuild the harness from the clean tree (the checks above left a build of the changed tree behind)
 (cd /verif/go && GOFLAGS=-mod=mod GOPROXY=off go build -tags verif -o /verif/build/harness . )
+# restore the evidence files and the generated facts of the unchanged tree (the runs above rewrote them from the changed tree)
+git -C /verif checkout -- evidence lean/Sth/Generated/Facts.lean 2>/dev/null
